@@ -2,7 +2,8 @@
 ENTRY = {'coq_dir': 'C14',
  'harness': 'c14',
  'cases': {'quick': 300, 'thorough': 3000},
- 'consts': ['NUM_BUCKETS', 'K_BUCKET'],
+ 'consts': ['NUM_BUCKETS', 'K_BUCKET', 'MAX_ADDRESSES', 'C19_KAD_MAX_ADDRESSES', 'SCORE_CONNECTION_ESTABLISHED',
+            'SCORE_CONNECTION_FAILURE_NEG', 'SCORE_PUBLIC_ADDRESS_BONUS'],
  'nontrivial_min_trace': 12,
  'rule': 'two seeded random streams against the real code, 2/3 table API and 1/3 Kademlia event loop. Stream A (real RoutingTable, 256 '
          'buckets): a local key (all-zero, all-one or random), 3-5 groups of 4-30 keys crafted into one bucket each (buckets 0, 1, 2-7, '
